@@ -283,7 +283,8 @@ CHECKS["C16"] = dict(
          "write-mode loss of ErrSnapshotNotFound included; Verify agrees with read-mode ReadAll; after a crash that reverts any subset of "
          "the unsynced tail's sectors (under GNoCollision) read-mode ReadAll returns what it returns on the fully written history cut short "
          "at a record boundary after the last synced call (crash_readAll_prefix_partial), and Repair followed by write-mode Open + ReadAll "
-         "gives the same with a clean EOF (crash_repair_readAll_prefix_partial). NOT proved but enumerated on the real code (fault enumeration, not "
+         "gives the same with a clean EOF (crash_repair_readAll_prefix_partial); the file selection of Open (selectWALFiles) does not change "
+         "the result under NoStale and SnapKept (readAll_selected). NOT proved but enumerated on the real code (fault enumeration, not "
          "proof): multi-sector tears (all subsets of <= 6 unsynced tail sectors per crash point, seeded random subsets beyond) and "
          "single-byte corruption of framing bytes (frame length field, protobuf tags, type, crc field, length varints), payload, padding "
          "and the zero tail with {0x00, low bit flipped, 0xff}: wal.OpenForRead/Open+ReadAll, Verify, Repair+reopen and "
